@@ -15,9 +15,10 @@
 //! on the FEATURE nodes above the writer, writes only through features, classified per
 //! history by `declared_for_history`, (3) the controller stream: declared graphs with
 //! pIsImplemented / pIsAvailable / pIsLocked controllers and is_readable / is_writable
-//! queries (no model tie there: controllers are not in the model).
+//! queries (tied to the model like the other streams).
 //! TIE (model vs implementation): both runs are sent to `CamVerif.Model.Cache` (results,
-//! final image, full access log) for every case without controllers, declared or not.
+//! final image, full access log) for every case of these streams, declared or not; the
+//! per-history classification `declared_for_history` is tied to the Lean `declaredForB`.
 //! The scripted device rejects statically (ranges), by write ordinal (atomic) and
 //! NON-ATOMICALLY (`rej_p`: error after part of the data, all of it, or garbage was stored).
 
@@ -1819,8 +1820,15 @@ fn do_case(rep: &mut Report, case: &Case, src: &str, replay: Value) {
         Op::PortWrite(pn, ..) => port_declared(&eff, *pn),
         _ => true,
     });
-    let modelled = case.ctls.is_empty() && !case.ops.iter().any(|op| matches!(op, Op::IsReadable(_) | Op::IsWritable(_)));
-    let g = graph_str(&eff);
+    // controllers and is_* queries are in the model since the growth round
+    let modelled = true;
+    // the controller table travels as a trailing pseudo node `K/…` (never addressed by an operation)
+    let g = if case.ctls.is_empty() {
+        graph_str(&eff)
+    } else {
+        let o = |x: &Option<usize>| x.map_or("-".to_string(), |v| v.to_string());
+        format!("{};K/{}", graph_str(&eff), case.ctls.iter().map(|(n, k)| format!("{n}:{}:{}:{}", o(&k[0]), o(&k[1]), o(&k[2]))).collect::<Vec<_>>().join(","))
+    };
     let d = dev_str(&case.dev);
     let o = ops_str(&case.ops);
     let canon = format!("{g} {d} {o}");
@@ -1958,6 +1966,10 @@ fn do_case(rep: &mut Report, case: &Case, src: &str, replay: Value) {
     }
     let ports: Vec<String> = eff.iter().enumerate().filter(|(_, n)| matches!(n, NodeSpec::Port)).map(|(i, _)| format!("{i}:{}", port_declared(&eff, i) as u8)).collect();
     rep.expect(format!("c04 decl {p} {g}"), format!("{} {}", decl as u8, ports.join(",")));
+    if modelled {
+        // the per-history predicate (feature-level declarations) is the Lean `declaredForB`
+        rep.expect(format!("c04 declh {p} {g} {o}"), format!("{}", (decl_hist && hist_ok) as u8));
+    }
 }
 
 /// The property oracle on the implementation's own outputs (cached vs uncached twin).
@@ -2531,7 +2543,7 @@ fn main() {
     let args = parse_args();
     let mut rep = Report::new(
         "C04",
-        "random register graphs (overlapping / selector-addressed / StructReg-entry registers, all Cachable modes, StructReg groups of 1..3 StructEntry children with Cachable / AccessMode / pInvalidator declared at struct level, entry level, both (different values) or neither — the abstract description follows the XML semantics, not the parsed node; one or two ports, Integer (pValue, pValueCopy) / Boolean / Enumeration / Command features) x random device images and rejection scripts (static ranges, rejected write ordinals, non-atomic rejections) x random histories; each case runs the real code with DefaultCacheStore and with CacheSink. `evaluations` counts ALL cases; the model tie (both runs + Declared) covers the declared / undeclared / via-feature streams (80% of the cases); the controller stream (10%: pIsImplemented / pIsAvailable / pIsLocked + is_* queries) and the shapes stream (10%: pLength, pAddress, IntSwissKnife address, pIndex pOffset, Float / String / Converter / IntConverter / IntSwissKnife features, value-store sources) are implementation-vs-implementation only (see tie:skipped counters). A case is non-trivial when at least 3 operations succeed and at least one device write succeeds; distinct by (effective graph or XML, device script, history)",
+        "random register graphs (overlapping / selector-addressed / StructReg-entry registers, all Cachable modes, StructReg groups of 1..3 StructEntry children with Cachable / AccessMode / pInvalidator declared at struct level, entry level, both (different values) or neither — the abstract description follows the XML semantics, not the parsed node; one or two ports, Integer (pValue, pValueCopy) / Boolean / Enumeration / Command features) x random device images and rejection scripts (static ranges, rejected write ordinals, non-atomic rejections) x random histories; each case runs the real code with DefaultCacheStore and with CacheSink. `evaluations` counts ALL cases; the model tie (both runs + Declared + the per-history DeclaredFor) covers the declared / undeclared / via-feature / controller streams (90% of the cases; controllers pIsImplemented / pIsAvailable / pIsLocked and is_readable / is_writable queries are in the model); the shapes stream (10%: pLength, pAddress, IntSwissKnife address, pIndex pOffset, Float / String / Converter / IntConverter / IntSwissKnife features, value-store sources) is implementation-vs-implementation only (see the tie:skipped counter). A case is non-trivial when at least 3 operations succeed and at least one device write succeeds; distinct by (effective graph or XML, device script, history)",
     );
 
     if let Some(path) = &args.replay {
